@@ -49,7 +49,14 @@ def gen():
     rc, out = common.run([exe, "-repo", common.REPO, "-coq", tmpv, "-json", js], env=common.go_env(), timeout=300)
     if rc != 0 or not os.path.exists(js) or not os.path.exists(tmpv):
         raise RuntimeError("translator failed (rc=%d):\n%s" % (rc, out[-3000:]))
-    common.write_if_changed(os.path.join(common.COQ, "gen", "GenC04Sites.v"), open(tmpv).read())
+    if common.write_if_changed(os.path.join(common.COQ, "gen", "GenC04Sites.v"), open(tmpv).read()):
+        # what depends on the inventory must be rebuilt; a stale .vo left
+        # behind by a failing make would otherwise count as discharged
+        for rel in ("gen/GenC04Sites.vo", "Safety/Conformance.vo", "Props/C04.vo"):
+            try:
+                os.remove(os.path.join(common.COQ, rel))
+            except FileNotFoundError:
+                pass
     inv = json.load(open(js))
     inv["translator_log"] = out.strip()[-500:]
     return inv
@@ -463,14 +470,30 @@ def main(tier, replay):
         broken.append("accessor correspondence: " + (acc.get("failed") or "")[:600])
     unexplained = [s for s in unsafe if not any(explains(f, s) for f in findings.values())]
     if (unexplained or (broken and not findings)) and (not coq.get("ok")):
-        keys = sorted({s["key"] for s in unexplained if s.get("key")})
-        targs = base + ["-budget", "4m" if tier == "quick" else "10m", "-streams", "typeconf,meta,fieldconf,states,repeat,disconnect"]
-        if keys:
-            targs += ["-keys", ",".join(keys + ["ppt_scheme", "match", "invoke"])]
-        common.info("C04: obligations broken, %d unexplained unsafe sites: targeted search (%s)" % (len(unexplained), ",".join(keys) or "all keys"))
-        tres, tlog = run_streams(exe, "thorough", "targeted", targs, timeout=1200)
-        absorb("targeted", tres)
-        unexplained = [s for s in unsafe if not any(explains(f, s) for f in findings.values())]
+        # aim the streams at the offending sites, class by class
+        plans = []
+        val = [s for s in unexplained if s["class"] in ("assert", "accessor", "keyread", "mapwrite", "reflect", "div", "makelen", "callpanic")]
+        if val:
+            keys = sorted({s["key"] for s in val if s.get("key")})
+            a = ["-streams", "typeconf,meta,states,fieldconf"]
+            if keys:
+                a += ["-keys", ",".join(keys + ["ppt_scheme"])]
+            plans.append(("values", a))
+        if any(s["class"] in ("index", "slice") for s in unexplained):
+            plans.append(("lengths", ["-streams", "meta,fieldconf,frames,typeconf", "-only", "meta/,fieldconf/,frames/,typeconf/local/PUBLISH"]))
+        if any(s["class"] in ("msgsend", "msgderef") for s in unexplained):
+            plans.append(("delivery", ["-streams", "frames,states", "-only", "frames/,states/raw,states/ws,states/local"]))
+        if any(s["class"] == "peerclose" for s in unexplained):
+            plans.append(("close", ["-streams", "typeconf,repeat,disconnect,burst,states", "-only", "nofeature,repeat/,disconnect/,burst/,states/"]))
+        if any(s["class"] == "panic" for s in unexplained) or not plans:
+            plans.append(("requests", ["-streams", "repeat,random,states,burst,disconnect"]))
+        for label, a in plans:
+            common.info("C04: obligations broken, %d unexplained unsafe sites: targeted search '%s'" % (len(unexplained), label))
+            tres, tlog = run_streams(exe, "thorough", "targeted-" + label, base + ["-budget", "3m" if tier == "quick" else "8m"] + a, timeout=1200)
+            absorb("targeted-" + label, tres)
+            unexplained = [s for s in unsafe if not any(explains(f, s) for f in findings.values())]
+            if not unexplained:
+                break
 
     # 5. verdict
     for sig in sorted(findings):
